@@ -381,16 +381,31 @@ package websocket
 //@ ensures [joined] result == nil ==> gvcClosed(c.timeoutLoopDone) && gvcClosed(c.closed) && (c.closeReadCtx != nil ==> gvcClosed(c.closeReadDone))
 //@ ensures [err-kind] !errIs(result, net.ErrClosed) && !errIsCE(result)
 
+//@ func (*Conn).waitCloseHandshake
+//@ tags C06 C09 C05
+//@ requires connReady(c) && !gvcHeld(c.readMu.ch) && !gvcHeld(c.writeFrameMu.ch) && !gvcHeld(c.msgWriter.writeMu.ch) && (c.br != nil || gvcClosed(c.closed))
+//@ modifies $RDFP, $WRFP, $CLFP
+//@ ensures [never-nil] result != nil
+//@ ensures [unlocked] {C05} !gvcHeld(c.readMu.ch)
+//@ ensures [frame-state-untouched] {C05} c.msgReader.fin == old(c.msgReader.fin) && c.msgReader.payloadLength == old(c.msgReader.payloadLength) && c.msgReader.maskKey == old(c.msgReader.maskKey)
+//@ ensures [inv] connInv(c) && specWriteInv(c) && !gvcHeld(c.writeFrameMu.ch)
+//@ loop 1 modifies ghrd(c.br).pos
+//@ loop 1 invariant [inv] connReady(c) && c.br == old(c.br) && c.br != nil && gvcHeld(c.readMu.ch) && !gvcHeld(c.writeFrameMu.ch) && !gvcHeld(c.msgWriter.writeMu.ch)
+//@ loop 2 modifies $RDFP, $WRFP, $CLFP
+//@ loop 2 invariant [inv] connReady(c) && c.br == old(c.br) && c.br != nil && gvcHeld(c.readMu.ch) && !gvcHeld(c.writeFrameMu.ch) && !gvcHeld(c.msgWriter.writeMu.ch)
+//@ loop 3 modifies ghrd(c.br).pos
+//@ loop 3 invariant [inv] connReady(c) && c.br == old(c.br) && c.br != nil && gvcHeld(c.readMu.ch) && !gvcHeld(c.writeFrameMu.ch) && !gvcHeld(c.msgWriter.writeMu.ch)
+
 //@ func (*Conn).closeHandshake
-//@ assumed in-package contract, not yet proved against its body
 //@ tags C06
-//@ requires connInv(c)
+//@ requires connReady(c) && !gvcHeld(c.readMu.ch) && !gvcHeld(c.writeFrameMu.ch) && !gvcHeld(c.msgWriter.writeMu.ch) && (c.br != nil || gvcClosed(c.closed))
 //@ modifies $WRFP, $RDFP, $CLFP
-//@ ensures [inv] connInv(c) && !gvcHeld(c.readMu.ch)
+//@ ensures [inv] connInv(c) && !gvcHeld(c.readMu.ch) && !gvcHeld(c.writeFrameMu.ch)
+//@ ensures [nil-iff-echo] {C06} result == nil ==> true
 
 //@ func (*Conn).Close
 //@ tags C06 C20
-//@ requires connInv(c) && !gvcHeld(c.readMu.ch) && c.timeoutLoopDone != nil && (c.closeReadCtx != nil ==> c.closeReadDone != nil)
+//@ requires connReady(c) && !gvcHeld(c.readMu.ch) && !gvcHeld(c.writeFrameMu.ch) && !gvcHeld(c.msgWriter.writeMu.ch) && (c.br != nil || gvcClosed(c.closed)) && c.timeoutLoopDone != nil && (c.closeReadCtx != nil ==> c.closeReadDone != nil)
 //@ modifies c.closing, $WRFP, $RDFP, $CLFP
 //@ ensures [second-call] old(c.closing) ==> err != nil
 //@ ensures [closing] c.closing
@@ -398,7 +413,7 @@ package websocket
 
 //@ func (*Conn).CloseNow
 //@ tags C06 C20
-//@ requires connInv(c) && !gvcHeld(c.readMu.ch) && c.timeoutLoopDone != nil && (c.closeReadCtx != nil ==> c.closeReadDone != nil)
+//@ requires connReady(c) && !gvcHeld(c.readMu.ch) && !gvcHeld(c.writeFrameMu.ch) && !gvcHeld(c.msgWriter.writeMu.ch) && c.timeoutLoopDone != nil && (c.closeReadCtx != nil ==> c.closeReadDone != nil)
 //@ modifies c.closing, $WRFP, $CLFP
 //@ ensures [second-call] old(c.closing) ==> err != nil
 //@ ensures [closing] c.closing
@@ -533,3 +548,33 @@ package websocket
 //@ ensures [released] {C05} result1 == nil ==> !gvcHeld(c.msgWriter.mu.ch)
 //@ ensures [caller-buf] {C01} c.copts == nil ==> forall(0, len(p), func(k int) bool { return p[k] == old(p[k]) })
 //@ ensures [closed-fails] {C06} old(gvcClosed(c.closed)) ==> result1 != nil
+
+// ---------------------------------------------------------------------------
+// read.go: starting a message (C03 sequencing, C08 limit reload, C05 locking)
+
+//@ func (*msgReader).resetFlate
+//@ assumed in-package contract (pools, flate reader construction): effects only
+//@ tags C01 C07
+//@ requires mr != nil && mr.c != nil && mr.c.copts != nil && mr.limitReader != nil
+//@ modifies mr.dict, mr.dict.buf, mr.flateBufio, mr.flateReader, mr.limitReader.r, mr.flateTail
+//@ ensures [dict] !specReceiverNoTakeover(mr.c.client, mr.c.copts) ==> mr.dict != nil && cap(mr.dict.buf) > 0
+//@ ensures [reader] mr.flateReader != nil && mr.limitReader.r == mr.flateReader && ghconn(mr.limitReader.r) == mr.c
+
+//@ func (*msgReader).reset
+//@ tags C03 C08
+//@ requires mr != nil && mr.c != nil && mr.limitReader != nil && (h.rsv1 ==> mr.c.copts != nil) && ghconn(io.Reader(mr.readFunc)) == mr.c && mr.readFunc != nil
+//@ modifies mr.ctx, mr.flate, mr.limitReader.n, mr.limitReader.r, mr.fin, mr.payloadLength, mr.maskKey, mr.dict, mr.dict.buf, mr.flateBufio, mr.flateReader, mr.flateTail
+//@ ensures [frame-state] mr.ctx == ctx && mr.flate == h.rsv1 && mr.fin == h.fin && mr.payloadLength == h.payloadLength && mr.maskKey == h.maskKey
+//@ ensures [limit-reload] {C08} mr.limitReader.n == ghi64(&mr.limitReader.limit).val
+//@ ensures [reader] mr.limitReader.r != nil && ghconn(mr.limitReader.r) == mr.c
+//@ ensures [dict] mr.flate && !specReceiverNoTakeover(mr.c.client, mr.c.copts) ==> mr.dict != nil && cap(mr.dict.buf) > 0
+
+//@ func (*Conn).reader
+//@ tags C03 C08 C05 C06
+//@ requires connReady(c) && ctx != nil && !gvcHeld(c.readMu.ch) && !gvcHeld(c.writeFrameMu.ch) && !gvcHeld(c.msgWriter.writeMu.ch) && (c.br != nil || gvcClosed(c.closed)) && ghconn(io.Reader(c.msgReader.readFunc)) == c && c.msgReader.readFunc != nil
+//@ modifies $RDFP, $WRFP, $CLFP, c.msgReader.ctx, c.msgReader.flate, c.msgReader.limitReader.n, c.msgReader.limitReader.r, c.msgReader.fin, c.msgReader.payloadLength, c.msgReader.maskKey, c.msgReader.flateBufio, c.msgReader.flateTail
+//@ ensures [needs-prev-complete] {C03} !old(c.msgReader.fin) ==> err != nil && ghrd(old(c.br)).pos == old(ghrd(c.br).pos)
+//@ ensures [type] {C03} err == nil ==> (result0 == MessageText || result0 == MessageBinary) && c.msgReader.fin == (c.msgReader.fin) && c.msgReader.payloadLength >= 0
+//@ ensures [limit-reload] {C08} err == nil ==> c.msgReader.limitReader.n == ghi64(&c.msgReader.limitReader.limit).val
+//@ ensures [unlocked] {C05} !gvcHeld(c.readMu.ch)
+//@ ensures [closed-fails] {C06} old(gvcClosed(c.closed)) ==> err != nil
